@@ -62,6 +62,21 @@ MUTANTS = {
     'filter_and': (P + 'pykdebugparser.py', "return (event_id >> 24 in filter_class) or (event_id >> 16 in self.filter_subclass)", "return (event_id >> 24 in filter_class) and (event_id >> 16 in self.filter_subclass or not self.filter_subclass)", ['C12']),
     'mutate_callers_list': (P + 'pykdebugparser.py', "filter_class = list(self.filter_class)", "filter_class = self.filter_class", ['C13']),
     'img_residue': (P + 'pykdebugparser.py', "        self.dyld_addresses.clear()\n        self.dyld_uuids.clear()\n", "", ['C13']),
+    'col_order_trace': (P + 'pykdebugparser.py', "        formatted_data += f'{tid:>11} ' if self.show_tid else ''\n        if self.show_process:\n            formatted_data += f'{self._format_process(tid):<34}'\n        event_rep = str(trace)",
+                        "        if self.show_process:\n            formatted_data += f'{self._format_process(tid):<34}'\n        formatted_data += f'{tid:>11} ' if self.show_tid else ''\n        event_rep = str(trace)", ['C14']),
+    'unknown_pid0': (P + 'pykdebugparser.py', "        pid = self.threads_pids.get(tid, -1)\n        process_name = self.pids_names.get(pid, '')\n        return f'{process_name}({pid})' if pid != -1 else f'Error: tid {tid}'",
+                     "        pid = self.threads_pids.get(tid, 0)\n        process_name = self.pids_names.get(pid, 'kernel_task')\n        return f'{process_name}({pid})'", ['C14']),
+    'tpid_not_applied': (P + 'trace_handlers/trace.py', "    parser.threads_pids[events[0].tid] = event.pid\n", "", ['C14']),
+    'qual_hides_name': (P + 'pykdebugparser.py', "        formatted_data += f'{name:<58}' if self.show_name else ''", "        formatted_data += f'{name:<58}' if self.show_name and self.show_func_qual else ''", ['C14']),
+    'thd_late': (P + 'trace_handlers/perf.py', "    parser.threads_pids[tid] = pid\n    return PerfThdData", "    parser.threads_pids.setdefault(tid, pid)\n    return PerfThdData", ['C14']),
+    'codes_first_wins': (P + 'trace_codes.py', "    return {int(s[0], 16): s[1] for s in map(lambda l: l.split(), codes_text.splitlines())}",
+                         "    out = {}\n    for s in map(lambda l: l.split(), codes_text.splitlines()):\n        out.setdefault(int(s[0], 16), s[1])\n    return out", ['C19']),
+    'codes_name_last_token': (P + 'trace_codes.py', "{int(s[0], 16): s[1] for s in", "{int(s[0], 16): s[-1] for s in", ['C19']),
+    'codes_base0': (P + 'trace_codes.py', "int(s[0], 16)", "int(s[0], 0)", ['C19']),
+    'traces_ignore_table': (P + 'pykdebugparser.py', "        trace_codes_map = default_trace_codes() if trace_codes is None else trace_codes\n\n        has_filters",
+                            "        trace_codes_map = default_trace_codes()\n\n        has_filters", ['C19']),
+    'vnode_default_table': (P + 'traces_parser.py', "return list(self.vnode_generator([e for e in events if self.trace_codes.get(e.eventid) == 'VFS_LOOKUP']))",
+                            "return list(self.vnode_generator([e for e in events if e.eventid == 0x3010090]))", ['C19']),
 }
 
 
